@@ -69,3 +69,15 @@ theorem gen_header_to_bytes (h : Header) :
    · simp [h1, Gen.packAll, liftH])
 
 end Mpgs.Equiv
+
+namespace Mpgs.Equiv
+open Mpgs Mpgs.Bytes Mpgs.Wire
+
+/-- `Packet.total_size(key)`: header + plaintext + 16-byte tag exactly when a (non-empty) key is given and the packet is not a
+    SERVER_HELLO, header + plaintext + 4-byte CRC otherwise - the decision `to_bytes` makes -/
+theorem gen_total_size (key : Option Bytes) (p : Packet) :
+    Gen.Packet_total_size (keyed key).isSome p.hdr.ptype.toNat p.msg.length = .ok (totalSize key p : Int) := by
+  unfold Gen.Packet_total_size totalSize
+  cases hk : keyed key <;> cases hp : p.hdr.ptype <;> simp [PType.toNat] <;> omega
+
+end Mpgs.Equiv
